@@ -227,6 +227,8 @@ def run_case(case, R):
                     R.fail("glexsort", "wrong-value", f"keys {keys.tolist()} graded={graded} reverse={reverse}: {bad}",
                            tags=[f"graded={graded}", f"reverse={reverse}", f"n={n}"], sub={"k": "sortone", "keys": keys.tolist(), "g": graded, "r": reverse})
         R.state(("sortall", d, n, case["part"]))
+        for fl in FLAGS:
+            R.outcome(("sortall", d, n, case["part"], fl))
         R.stat("key_matrices", hi - lo)
         R.sample({"keys": keys.tolist(), "flags": FLAGS})
     elif k == "sortone":
@@ -281,6 +283,8 @@ def run_case(case, R):
                         bad = compare_index_rows(got, sure, amb, graded, reverse)
                     if bad:
                         R.fail("glexindex", "wrong-value", f"{lab}: {bad}", tags=tags)
+                    else:
+                        R.outcome(("glexindex", lab))
                     if amb:
                         R.stat("boundary_ambiguous")
             # bindex orderings (default norm and inf)
